@@ -130,7 +130,11 @@ func cmdRace(args []string) {
 	// shared objects from generated histories
 	for h := 0; h < *nobj; h++ {
 		g := newGen(r, false, map[string]int{})
-		t := g.tree(treeOpts{depth: 1 + g.pick(3), vars: true, ellipsis: g.chance(0.3), maxLeaf: 6})
+		maxLeaf := 6
+		if h%8 == 5 {
+			maxLeaf = 1500 // a few large objects: what is kept for large encodings only
+		}
+		t := g.tree(treeOpts{depth: 1 + g.pick(3), vars: h%8 != 5, ellipsis: h%8 != 5 && g.chance(0.3), maxLeaf: maxLeaf})
 		if g.chance(0.6) {
 			g.anyMsg(t)
 		}
